@@ -80,6 +80,10 @@ class C14(CoordMixin, Prop):
                                f"setsys {rng.choice(['none', '0', '5'])} none {rng.choice(['none', '5'])}"])
         if c < 0.64:
             return f"exempt {o} {rng.choice('01')}"
+        if c < 0.69:      # the phase machinery from outside: flags assigned, advance (also round the cycle)
+            return rng.choice([f"advance {o}", f"advance {o}", f"flag {o} {rng.choice('rev')} {rng.choice('011')}"])
+        if c < 0.70:
+            return f"track {rng.choice('01')} {o}"
         return gen_exec(rng, rng.choice([1, 1, 1, 5]), nres, [x for x in ops if x != 1])
 
     def generate(self, rng, tier, n):
